@@ -771,6 +771,18 @@ def interval_join_replay(V, wd, tier):
 
 
 def C08(V, tier):
+    # M: the symmetric local hash join as coded (comp/HashJoin.tla): every interleaving of items and end
+    # markers of every small input pair gives the relational join; the seeded regression must fail
+    wdm = workdir("C08m")
+    for v in ("inner", "left", "outer"):
+        cfg = f"HashJoin_{v}" + ("" if tier == "quick" else "_thorough")
+        r = tlc_check(f"{SPEC}/comp/HashJoin.tla", f"{SPEC}/mc/{cfg}.cfg", wdm, cfg, workers=4, timeout=3000)
+        if not r["ok"]:
+            raise ToolError(f"model check {cfg}: {r['invariant_violated']} fails on the MODEL")
+        require_coverage(r, ["LeftItem", "RightItem", "SideEnd", "Restart"], cfg)
+        V.add_model(r, cfg)
+    r = tlc_check(f"{SPEC}/comp/HashJoin.tla", f"{SPEC}/mc/HashJoin_seedC08.cfg", wdm, "seedC08", workers=2, coverage=False)
+    V.coverage["HashJoin_seedC08_still_fails"] = r["invariant_violated"] == "NoExtra"
     binary_replay(V, workdir("C08r"), tier, "C08", JOIN_VARIANTS)
     interval_join_replay(V, workdir("C08i"), tier)
     rng = random.Random(seed() + 8)
